@@ -161,6 +161,27 @@ func (t *tr) node(n gen.Node) string {
 		}
 		return re
 	case gen.In:
+		multi := false
+		for _, it := range x.Items {
+			if it.Kind == "lit" && len(it.S) > 1 {
+				multi = true
+			}
+		}
+		if multi {
+			if x.Not {
+				return t.fail("multi-byte item in a negated list")
+			}
+			// ordered alternation, earlier item first
+			var alts []string
+			for _, it := range x.Items {
+				if it.Kind == "lit" {
+					alts = append(alts, litRe(it.S, it.Caseless))
+				} else {
+					alts = append(alts, "["+t.item(it)+"]")
+				}
+			}
+			return "(?:" + strings.Join(alts, "|") + ")"
+		}
 		var sb strings.Builder
 		for _, it := range x.Items {
 			sb.WriteString(t.item(it))
